@@ -93,6 +93,11 @@ pub fn test_pair(c: &PairCase, ctx: &mut CaseCtx) -> Result<(), String> {
         let mixed = |t: &str| t.contains(" \t") || t.contains("\t ");
         ctx.class_if(mixed(&c.p) && mixed(&c.d), "runs_of_spaces_and_tabs_in_both_paragraphs");
     }
+    {
+        let blanks = c.d.chars().take_while(|ch| *ch == ' ' || *ch == '\t').count();
+        ctx.class_if(blanks >= 2 && c.d.chars().count() > blanks, "d_starts_with_two_or_more_blanks");
+        ctx.class_if(blanks >= 2 && ld.iter().any(|l| l.span.start == 0), "d_starts_with_blanks_and_a_lint_at_its_start");
+    }
     if (!lp.is_empty() && !ld.is_empty()) || condensable {
         ctx.nontrivial(c);
     }
@@ -223,16 +228,26 @@ pub fn pair_strategy() -> BoxedStrategy<PairCase> {
     };
     let blanks = (spaced(), spaced(), g::sel_str(&["\n\n", "\n\n\n", "\n\n\n\n"]), g::sel_str(&["", ".", " \t"]))
         .prop_map(|(p, d, br, tail)| PairCase { p: format!("{p}.{br}"), d: format!("{d}{tail}") });
-    prop_oneof![5 => independent, 3 => shared, 1 => misspelt, 2 => abbrev, 1 => ordinals, 2 => openers, 2 => blanks].boxed()
+    // an indented first line: D (and sometimes P) starts with a run of blanks, which a rule that
+    // counts sentences or looks at "the beginning" sees at another position in P+D than in D alone
+    let lead = || g::sel_str(&["  ", "    ", "   ", "\t", " \t", "\t ", "  \t  ", " "]);
+    let indented = (first_paragraph(), prop::bool::weighted(0.3), lead(), lead(), g::text(), g::sentence(), any::<bool>())
+        .prop_map(|(p, indent_p, lp, ld, text, sentence, use_text)| PairCase {
+            p: if indent_p { format!("{lp}{p}") } else { p },
+            d: format!("{ld}{}", if use_text { text } else { sentence }),
+        });
+    prop_oneof![5 => independent, 3 => shared, 1 => misspelt, 2 => abbrev, 1 => ordinals, 2 => openers, 2 => blanks, 3 => indented].boxed()
 }
 
 pub fn run(run: &mut Run) {
-    run.rule = "pairs (P, D): P = 1-3 G-TEXT sentences with double quotes removed, internal blank lines collapsed, ending in a sentence terminator and a paragraph break (\\n\\n or \\n\\n\\n); D = any G-TEXT text (plus families: shared words, abbreviations at the end of P, ordinals, special openers of D, runs mixing spaces and tabs in both); plain English, all rules on; oracle: sorted lints(P+D) == sorted(lints(P) ++ shift(lints(D), |P|)) comparing all fields. Non-trivial = P and D both produce lints, or P contains a condensable construct; distinct by (P, D).".into();
+    run.rule = "pairs (P, D): P = 1-3 G-TEXT sentences with double quotes removed, internal blank lines collapsed, ending in a sentence terminator and a paragraph break (\\n\\n or \\n\\n\\n); D = any G-TEXT text (plus families: shared words, abbreviations at the end of P, ordinals, special openers of D, runs mixing spaces and tabs in both, an indented first line of D and sometimes P); plain English, all rules on; oracle: sorted lints(P+D) == sorted(lints(P) ++ shift(lints(D), |P|)) comparing all fields. Non-trivial = P and D both produce lints, or P contains a condensable construct; distinct by (P, D).".into();
     let n = run.n(6_000, 300_000);
     run.prop("paragraph_pairs", n, pair_strategy, test_pair);
     run.require_class("paragraph_pairs", "both_have_lints", (n / 5) as u64);
     run.require_class("paragraph_pairs", "p_condensable", (n / 20) as u64);
     run.require_class("paragraph_pairs", "runs_of_spaces_and_tabs_in_both_paragraphs", (n / 40) as u64);
+    run.require_class("paragraph_pairs", "d_starts_with_two_or_more_blanks", (n / 20) as u64);
+    run.require_class("paragraph_pairs", "d_starts_with_blanks_and_a_lint_at_its_start", (n / 50) as u64);
 }
 
 pub fn replay(_check: &str, case: Value, _run: &mut Run) -> Result<(), String> {
